@@ -276,6 +276,46 @@ def r9_4(ctx, fx):
     ctx.floor(rid, n, 30, "disjunct-changing events")
 
 
+def r9_6(ctx, fx):
+    import re
+    rid = "R9.6"
+    ctx.rule(rid, "validation does not depend on there being a disjunct: a dimension-changing member of Pointset_Powerset that takes variables, a set of variables or a new dimension leaves the check of that argument to the base operation it applies to each disjunct — which runs zero times on a powerset without disjuncts (and, for remove_higher_space_dimensions, not at all when the new dimension is larger). For every such argument the member itself holds, outside any loop, a test mentioning the argument (or a local computed from it) whose branch throws; otherwise the powerset's own space_dim is changed by an argument nobody validated (removing {5,6,7} from an empty 2-dimensional powerset leaves dimension 2^64 - 1)")
+    n = 0
+    seen = set()
+    for f in fx.functions:
+        if f.clsn != "Pointset_Powerset" or f.name not in ("remove_space_dimensions", "remove_higher_space_dimensions", "expand_space_dimension", "fold_space_dimensions") or (f.name, len(f.params)) in seen:
+            continue
+        if not f.flag("pattern") and any(g.name == f.name and g.flag("pattern") for g in fx.functions if g.clsn == f.clsn):
+            pass
+        seen.add((f.name, len(f.params)))
+        for q in f.params:
+            if not q["n"] or not (re.search(r"Variable|Variables_Set", q["t"]) or "new_dim" in q["n"]):
+                continue
+            n += 1
+            inst = "Pointset_Powerset::%s(%s)" % (f.name, q["n"])
+            dset = set([q["n"]])
+            changed = True
+            while changed:
+                changed = False
+                for v in f.walk():
+                    if v["k"] == "var" and v.get("c") and v["n"] not in dset and any(y["k"] == "ref" and y.get("n") in dset for c_ in v["c"] for y in f.walk(f.deref(c_))):
+                        dset.add(v["n"])
+                        changed = True
+            ok = False
+            for i_ in f.walk():
+                if i_["k"] != "if" or any(a["k"] in ("for", "while", "do") for a in f.ancestors(i_)):
+                    continue
+                cond, then = f.deref(i_["c"][2]), f.deref(i_["c"][3])
+                if any(y["k"] == "ref" and y.get("n") in dset for y in f.walk(cond)) and \
+                        any(y["k"] == "throw" or (y["k"] in ("call", "mcall") and f.call_name(y).startswith("throw_")) for y in f.walk(then)):
+                    ok = True
+            if ok:
+                ctx.ok(rid, inst, f.where())
+            else:
+                ctx.violation(rid, inst, f.where(), "`%s` is checked only by the operation applied to each disjunct: with no disjunct (or, for a larger new dimension, never) nothing rejects it and space_dim is updated from it" % q["n"])
+    ctx.floor(rid, n, 5, "dimensioned arguments of powerset dimension changers")
+
+
 def r9_5(ctx):
     from rules.c14 import units_alloc
     rid = "R9.5"
@@ -377,3 +417,4 @@ def run(ctx):
     r9_3(ctx, fx)
     r9_4(ctx, fx)
     r9_5(ctx)
+    r9_6(ctx, fx)
